@@ -295,11 +295,11 @@ PROPERTIES["C19"] = {
          "encoded": ["nano::parameter_t::make_scalar/_integer/_scalar_pair/_integer_pair", "nano::parameter_t::operator=(scalar/int64/tuple/string)", "(anonymous)::update(range_t/pair_range_t)",
                      "(anonymous)::check(LEorLT)", "nano::parameter_t::value / value_pair", "nano::parameter_t::read / write", "nano::operator==(parameter_t)"]},
         {"engine": "sre", "harness": "C19_factory", "sources": ["C19_factory.cpp"], "flags": ["-fno-access-control"],
-         "quick": ["fac=solver;from=%d;count=1" % i for i in range(0, 36)] + ["fac=%s" % f for f in ("lsearchk", "lsearch0", "loss", "splitter", "tuner", "wlearner", "linear")],
-         "thorough": ["fac=solver;from=%d;count=1" % i for i in range(0, 40)] + ["fac=%s" % f for f in ("lsearchk", "lsearch0", "loss", "splitter", "tuner", "wlearner", "linear")],
+         "quick": ["fac=solver;from=%d;count=1;nested=1" % i for i in range(0, 36)] + ["fac=%s" % f for f in ("lsearchk", "lsearch0", "loss", "splitter", "tuner", "wlearner", "linear")],
+         "thorough": ["fac=solver;from=%d;count=1;nested=1" % i for i in range(0, 40)] + ["fac=%s" % f for f in ("lsearchk", "lsearch0", "loss", "splitter", "tuner", "wlearner", "linear")],
          "budget": {"quick": {"deadline_s": 60, "max_paths": 5000}, "thorough": {"deadline_s": 300, "max_paths": 50000}},
          "encoded": ["nano::factory_t<T>::{ids, get}", "T::all() for solver, lsearch0, lsearchk, loss, splitter, tuner, wlearner, linear", "nano::configurable_t::{parameter, parameters, register_parameter}", "T::clone (clonable_t)",
-                     "nano::parameter_t::operator=(scalar / int64)", "nano::operator==(parameter_t)", "nano::typed_t::type_id"]},
+                     "nano::parameter_t::operator=(scalar / int64)", "nano::operator==(parameter_t)", "nano::typed_t::type_id", "nano::solver_t copy constructor / lsearch0(const lsearch0_t&) / lsearchk(const lsearchk_t&) (nested configurable objects)"]},
     ],
 }
 
